@@ -39,6 +39,9 @@ pub struct Scn {
     /// via_analyzer, HTTP: a second init_pool on the same analyzer while a handle to the first pool is held
     #[serde(default)]
     pub reinit_pool: bool,
+    /// which rewrite of the signature database pool and sequential analyzer are given (0 = bundled)
+    #[serde(default)]
+    pub db_variant: u32,
 }
 
 fn sequential(cfg: &PoolCfg, trace: &[Timed]) -> Result<Vec<Vec<Obs>>, Violation> {
@@ -117,6 +120,10 @@ fn compare(kind: PoolKind, seq: &[Vec<Obs>], got: &[Vec<Obs>], what: &str) -> Re
 }
 
 fn run_eq(s: &Scn, st: &mut RunStats, check_probe_only: bool) -> Result<(), Violation> {
+    crate::sut::set_db_variant(s.db_variant);
+    if s.db_variant != 0 {
+        st.fault("rewritten_signature_database");
+    }
     let kind = s.cfg.kind;
     let mut all: Vec<Timed> = s.trace.clone();
     all.extend(s.probe.iter().cloned());
@@ -420,7 +427,7 @@ impl Prop for C10 {
             cfg.workers = *r.pick(&[2usize, 2, 3, 4]);
             // the TCP analyzer tracks timestamps per direction: two entries per connection
             cfg.cap = if kind == PoolKind::Tcp { 2 * n } else { n };
-            return Scn { idle_gap: None, reinit_pool: false, cfg, trace, probe: vec![], via_analyzer: false, schedules: vec![r.next_u64()], iters: 2, sched: Sched::Random };
+            return Scn { idle_gap: None, reinit_pool: false, db_variant: 0, cfg, trace, probe: vec![], via_analyzer: false, schedules: vec![r.next_u64()], iters: 2, sched: Sched::Random };
         }
         let n = r.urange(2, tier.pick(6, 12));
         let trace = gen_trace(r, kind, n, true);
@@ -439,7 +446,8 @@ impl Prop for C10 {
         // drain spins to its cap while low-priority workers starve, and one scenario then costs a minute of CPU)
         let sched = if tier == Tier::Thorough && idle_gap.is_none() && r.chance(1, 4) { Sched::Pct(r.urange(2, 3)) } else { Sched::Random };
         let reinit_pool = via && kind == PoolKind::Http && r.chance(1, 2);
-        Scn { idle_gap, reinit_pool, cfg, trace, probe: vec![], via_analyzer: via, schedules: (0..n_sched).map(|_| r.next_u64()).collect(), iters: tier.pick(8, 20), sched }
+        let db_variant = if kind != PoolKind::Tls && r.chance(1, 4) { 1 + r.below(crate::sut::DB_VARIANTS as u64) as u32 } else { 0 };
+        Scn { idle_gap, reinit_pool, db_variant, cfg, trace, probe: vec![], via_analyzer: via, schedules: (0..n_sched).map(|_| r.next_u64()).collect(), iters: tier.pick(8, 20), sched }
     }
 
     fn run(s: &Scn, st: &mut RunStats) -> Result<(), Violation> {
@@ -478,7 +486,7 @@ impl Prop for C08Pool {
         cfg.workers = *r.pick(&[1usize, 2, 3, 4, 8]);
         cfg.batch = *r.pick(&[1usize, 2, 4, 32]);
         let n_sched = tier.pick(2, 8);
-        Scn { idle_gap: None, reinit_pool: false, cfg, trace, probe: vec![], via_analyzer: false, schedules: (0..n_sched).map(|_| r.next_u64()).collect(), iters: tier.pick(6, 12), sched: Sched::Random }
+        Scn { idle_gap: None, reinit_pool: false, db_variant: 0, cfg, trace, probe: vec![], via_analyzer: false, schedules: (0..n_sched).map(|_| r.next_u64()).collect(), iters: tier.pick(6, 12), sched: Sched::Random }
     }
 
     fn run(s: &Scn, st: &mut RunStats) -> Result<(), Violation> {
@@ -539,7 +547,7 @@ impl Prop for C01Pool {
         let mut cfg = gen_cfg(r, kind, trace.len() + probe.len());
         cfg.workers = *r.pick(&[1usize, 2, 3, 4]);
         let n_sched = tier.pick(2, 6);
-        Scn { idle_gap: None, reinit_pool: false, cfg, trace, probe, via_analyzer: false, schedules: (0..n_sched).map(|_| r.next_u64()).collect(), iters: tier.pick(4, 10), sched: Sched::Random }
+        Scn { idle_gap: None, reinit_pool: false, db_variant: if r.chance(1, 4) { 1 + r.below(crate::sut::DB_VARIANTS as u64) as u32 } else { 0 }, cfg, trace, probe, via_analyzer: false, schedules: (0..n_sched).map(|_| r.next_u64()).collect(), iters: tier.pick(4, 10), sched: Sched::Random }
     }
 
     fn run(s: &Scn, st: &mut RunStats) -> Result<(), Violation> {
@@ -598,7 +606,7 @@ impl Prop for C15Pool {
         let mut cfg = gen_cfg(r, kind, trace.len());
         cfg.filter = Some(super::c15::gen_filter(r, &trace));
         let n_sched = tier.pick(2, 6);
-        Scn { idle_gap: None, reinit_pool: false, cfg, trace, probe: vec![], via_analyzer: r.chance(1, 4), schedules: (0..n_sched).map(|_| r.next_u64()).collect(), iters: tier.pick(4, 10), sched: Sched::Random }
+        Scn { idle_gap: None, reinit_pool: false, db_variant: 0, cfg, trace, probe: vec![], via_analyzer: r.chance(1, 4), schedules: (0..n_sched).map(|_| r.next_u64()).collect(), iters: tier.pick(4, 10), sched: Sched::Random }
     }
 
     fn run(s: &Scn, st: &mut RunStats) -> Result<(), Violation> {
